@@ -112,6 +112,7 @@ type frame struct {
 
 	root *frame          // global space
 	anc  *frame          // ancestor frame (caller space)
+	orig *frame          // frame of the function activation this frame is a clone of, or nil
 	data []reflect.Value // values
 
 	mutex     sync.RWMutex
@@ -137,11 +138,22 @@ func newFrame(anc *frame, length int, id uint64) *frame {
 
 func (f *frame) runid() uint64      { return atomic.LoadUint64(&f.id) }
 func (f *frame) setrunid(id uint64) { atomic.StoreUint64(&f.id, id) }
+
+// activation returns the frame of the function activation f belongs to: f itself,
+// or the frame f was cloned from (a closure works on a clone of its defining frame).
+func (f *frame) activation() *frame {
+	if f.orig != nil {
+		return f.orig
+	}
+	return f
+}
+
 func (f *frame) clone() *frame {
 	f.mutex.RLock()
 	defer f.mutex.RUnlock()
 	nf := &frame{
 		anc:       f.anc,
+		orig:      f.activation(),
 		root:      f.root,
 		deferred:  f.deferred,
 		recovered: f.recovered,
